@@ -183,7 +183,7 @@ func convert(res *kit.Result, c Case, src []byte) (out outcome) {
 // directory of the Markdown file, so that directory is the reference's ImageBasePath). The text of formula runs
 // is left out of the comparison for arbitrary byte strings (the LaTeX display text is not judged by this check).
 func entryAgreement(res *kit.Result, c Case, src []byte, dir string, a []ablk) {
-	if len(src) > 1<<16 { // budget: the giant inputs (tables of 10^5 cells, a token repeated thousands of times) are judged for totality only
+	if len(src) > 1<<16 && (c.Kind != "ast" || len(src) > 1<<19) { // budget: the giant inputs (tables of 10^5 cells, a token repeated thousands of times) are judged for totality only
 		res.Count("agreement_skipped_large_input", 1)
 		return
 	}
@@ -407,6 +407,7 @@ func runAST(c Case) *kit.Result {
 	for k := range ik {
 		res.Label("inl:" + k)
 	}
+	sizeLabels(res, c)
 	clean := true
 	for _, s := range shapes {
 		for _, b := range c.Doc {
@@ -479,6 +480,106 @@ func runAST(c Case) *kit.Result {
 	return res
 }
 
+// sizeLabels: the classes of size, count and spelling that the common case does not reach
+func sizeLabels(res *kit.Result, c Case) {
+	if c.CRLF {
+		res.Label("eol:crlf")
+	}
+	if c.NoEOL {
+		res.Label("eol:last-line-unterminated")
+	}
+	seen := map[string]bool{}
+	lab := func(l string) {
+		if !seen[l] {
+			seen[l] = true
+			res.Label(l)
+		}
+	}
+	var walkI func(xs []Inl)
+	walkI = func(xs []Inl) {
+		for _, x := range xs {
+			if x.K == "t" {
+				if n := len(textOf(x)); n >= 65536 {
+					lab("size:text>=64KiB")
+				} else if n >= 4096 {
+					lab("size:text>=4KiB")
+				}
+				for _, w := range strings.Fields(x.S) {
+					if i := strings.IndexByte(w, '&'); i >= 0 && len(w) > i+1 {
+						if resolveRefs(w) == w {
+							lab("text:reference-lookalike-literal")
+						} else {
+							lab("text:character-reference")
+						}
+					}
+				}
+			}
+			walkI(x.C)
+		}
+	}
+	heads := 0
+	var walk func(bs []Blk)
+	walk = func(bs []Blk) {
+		for _, b := range bs {
+			walkI(b.I)
+			walk(b.B)
+			switch b.K {
+			case "h":
+				heads++
+				if b.Mark == "#" {
+					lab("h:closing-sequence")
+				}
+			case "code":
+				if len(b.Lines) >= 9 {
+					lab("size:code-lines>=9")
+				}
+				for _, l := range codeLines(b) {
+					if len(l) >= 65536 {
+						lab("size:code-line>=64KiB")
+					} else if len(l) >= 4096 {
+						lab("size:code-line>=4KiB")
+					}
+				}
+			case "ul", "ol":
+				if len(b.Items) >= 9 {
+					lab("size:items>=9")
+				}
+				if len(b.Items) >= 32 {
+					lab("size:items>=32")
+				}
+				for _, it := range b.Items {
+					walk(it.B)
+				}
+			case "tbl":
+				if len(b.Head) >= 9 {
+					lab("size:columns>=9")
+				}
+				if len(b.Rows) >= 9 {
+					lab("size:rows>=9")
+				}
+				if len(b.Head) >= 32 || len(b.Rows) >= 32 {
+					lab("size:table>=32")
+				}
+				for _, cl := range b.Head {
+					walkI(cl)
+				}
+				for _, r := range b.Rows {
+					for _, cl := range r {
+						walkI(cl)
+					}
+				}
+			}
+		}
+	}
+	walk(c.Doc)
+	if heads >= 9 {
+		lab("size:headings>=9")
+	}
+	if len(c.Doc) >= 13 {
+		lab("size:blocks>=13")
+	}
+}
+
 // leadingIndent: the first non-blank line of the source starts with white space (its indentation is syntax:
 // indented code, an indented fence, ...)
 func leadingIndent(src []byte) bool {
@@ -535,7 +636,7 @@ func TestC19(t *testing.T) {
 	}
 	kit.Main(t, kit.Spec[Case]{
 		ID: "C19", Level: "exploration",
-		Rule: "about 35% totality cases (random bytes, random UTF-8, Markdown token soup, one token repeated up to 1500x (thorough 6000x), huge pipe tables, unbalanced $, LaTeX token soup, formula documents (1-5 formulas drawn from a LaTeX command grammar - roots with drawn index, fractions, scripts, big operators with bounds, delimiters, wrappers with optional arguments, environments, unfinished constructs; every argument/index/bound drawn from both letter cases, digits, commands, nested expressions - placed inline, as display, in items, quotes, cells, headings, spans), slices of a document using every construct re-assembled with soup tokens; LaTeXToOMMLString on the same bytes and on every formula body) and 65% fidelity cases (Markdown AST of 1-7 (thorough 1-12) top-level blocks serialised canonically, words from a safe alphabet), each under a drawn combination of GFM/tables/task lists/math/footnotes/TOC/TOC level and through a drawn entry point: ConvertBytes, ConvertString, ConvertFile, BatchConvert (file entry points are judged on the package they write, read by an independent reader of the main document part, and compared with the package of the document ConvertBytes returns for the same bytes); in 40% of all cases the Converter has first converted 1-2 other documents (link reference, footnote, heading-id, math, table definitions; in a batch: the files before the judged one; expected result unchanged); a fidelity case is judged only if the AST reading equals the reading of goldmark's HTML (else discarded and counted); 3/4 of the fidelity cases are built only from forms outside every open finding's input class (label judged:unmasked), 1/4 carry one such class. A case that does not return within 15 s (thorough 45 s) ends the process (watchdog) and is replayed by the driver. Non-trivial: fidelity = judged case with >=3 block kinds and >=2 inline kinds; totality = conversion produced >=1 body element. Distinct = option set + block/inline structure signature (fidelity) or class + first tokens + size bucket (totality)",
+		Rule: "about 35% totality cases (random bytes, random UTF-8, Markdown token soup, one token repeated up to 1500x (thorough 6000x), huge pipe tables, unbalanced $, LaTeX token soup, formula documents (1-5 formulas drawn from a LaTeX command grammar - roots with drawn index, fractions, scripts, big operators with bounds, delimiters, wrappers with optional arguments, environments, unfinished constructs; every argument/index/bound drawn from both letter cases, digits, commands, nested expressions - placed inline, as display, in items, quotes, cells, headings, spans), slices of a document using every construct re-assembled with soup tokens; LaTeXToOMMLString on the same bytes and on every formula body) and 65% fidelity cases (Markdown AST of 1-7 (thorough 1-12) top-level blocks serialised canonically, words from a safe alphabet plus, for about one word in 40, a character-reference look-alike: entity names in the spellings HTML5 has and in spellings it does not have (other letter case, a letter more or less, no semicolon), unknown names, numeric references at and beyond their digit limits and code-point range - the reading resolves exactly what CommonMark 2.5 calls a reference, everything else is literal text; sizes are small in the common case and, with a small probability each, at or beyond 9-12 and 32/64/65/100 (list items, table columns and rows, code lines, top-level blocks, headings of one document) and 255 B-128 KiB for one code line or one run of text (128 KiB and 65 blocks in the thorough tier only; lengths just below and above 256, 1 Ki, 4 Ki, ..., 64 Ki); ATX headings with and without closing hashes; the text written with LF or CRLF line endings, with or without the terminator of the last line), each under a drawn combination of GFM/tables/task lists/math/footnotes/TOC/TOC level and through a drawn entry point: ConvertBytes, ConvertString, ConvertFile, BatchConvert (file entry points are judged on the package they write, read by an independent reader of the main document part, and compared with the package of the document ConvertBytes returns for the same bytes); in 40% of all cases the Converter has first converted 1-2 other documents (link reference, footnote, heading-id, math, table definitions; in a batch: the files before the judged one; expected result unchanged); a fidelity case is judged only if the AST reading equals the reading of goldmark's HTML (else discarded and counted); 3/4 of the fidelity cases are built only from forms outside every open finding's input class (label judged:unmasked), 1/4 carry one such class. A case that does not return within 15 s (thorough 45 s) ends the process (watchdog) and is replayed by the driver. Non-trivial: fidelity = judged case with >=3 block kinds and >=2 inline kinds; totality = conversion produced >=1 body element. Distinct = option set + block/inline structure signature (fidelity) or class + first tokens + size bucket (totality)",
 		Gen:  genCase, Run: run, Findings: findings, Fixed: fixedCases,
 		// totality includes termination: a case that has not returned after 15 s (thorough tier, whose inputs are
 		// up to 50 times larger: 45 s; the slowest case of the quick search takes about half a second on a machine
@@ -548,6 +649,7 @@ func TestC19(t *testing.T) {
 			"bold/italic coming from the heading style or from a table header row is not attributed to inline emphasis",
 			"formulas are judged for text only (plain alphanumeric content), not for formatting; the state of a task-list check box is not visible text",
 			"white space inside a block is compared after collapsing runs of blanks and line breaks to one blank; M1 ignores white space altogether",
+			"in ordinary text '&name;' is a character reference only if name is an HTML5 entity name in exactly that spelling, '&#d;' only with 1-7 decimal and '&#xh;' only with 1-6 hex digits (invalid code points read as U+FFFD); every other '&...' is the literal text as typed (CommonMark 2.5); a line ending is LF or CRLF and a last line needs no terminator (CommonMark 2.1); no construct has a size limit",
 			"the document a file entry point yields is the body of the main document part of the package it writes (paragraphs, runs with b/i/strike/rFonts, tables; w:t without xml:space=preserve is trimmed as a consumer would)",
 			"M7: the document depends on the bytes and the options only, so ConvertFile/BatchConvert write the body that ConvertBytes yields for the file's bytes (relative image paths resolve against the file's directory, as documented); for arbitrary byte strings the text of formula runs is left out of that comparison",
 			"termination is judged with a limit of 15 s per case (thorough tier 45 s; slowest observed case of the quick tier: about 0.5 s on an overloaded machine)",
@@ -556,6 +658,8 @@ func TestC19(t *testing.T) {
 			"blk:ul": 0.12, "blk:ol": 0.05, "blk:task": 0.04, "blk:bq": 0.08, "blk:h": 0.15, "blk:h-setext": 0.05, "blk:hr": 0.05, "inl:em": 0.1, "inl:st": 0.1, "inl:code": 0.1, "inl:link": 0.1, "inl:sb": 0.1, "inl:del": 0.05, "blk:math": 0.03, "inl:math": 0.05,
 			"bytes:soup": 0.05, "bytes:deep": 0.01, "bytes:table": 0.01, "bytes:dollar": 0.008, "bytes:splice": 0.03, "entry:file": 0.08, "entry:batch": 0.08,
 			"bytes:formula": 0.03, "latex:root-index": 0.015, "latex:frac": 0.02, "latex:script-braced": 0.02, "agreement:judged": 0.15, "src:leading-indent+file-entry": 0.01,
-			"converter:reused": 0.25, "converter:fresh": 0.3, "inl:br": 0.15, "code:indented-fence+tab": 0.03},
+			"converter:reused": 0.25, "converter:fresh": 0.3, "inl:br": 0.15, "code:indented-fence+tab": 0.03,
+			"text:reference-lookalike-literal": 0.02, "text:character-reference": 0.02, "size:code-line>=64KiB": 0.002, "size:text>=64KiB": 0.0005, "eol:crlf": 0.02, "eol:last-line-unterminated": 0.02,
+			"size:items>=9": 0.005, "size:columns>=9": 0.005, "size:rows>=9": 0.005, "size:code-lines>=9": 0.005, "size:headings>=9": 0.005, "h:closing-sequence": 0.02},
 	})
 }
